@@ -90,7 +90,7 @@ def conforming_filtered(W, junk):
 
 
 def searches(ref, W, tier):
-    k = 2 if tier == "thorough" else 1
+    k = 2 if tier == "thorough" else (0 if tier == "c20" else 1)
     types = sorted({ref.natural(s)[0] for s in W.leaves})
     # bases drawn from the universe itself so that searches hit existing entities
     seen = set()
@@ -103,6 +103,8 @@ def searches(ref, W, tier):
         n = len(segs)
         yield "/".join(segs)
         for mask in range(1, 2 ** n):
+            if tier == "c20" and n > 5 and 2 < bin(mask).count("1") < n - 1:
+                continue   # configuration family: at most 2 or at least n-1 stars on long types
             yield "/".join("*" if mask >> i & 1 else segs[i] for i in range(n))
         se = searchgen.segment_edits(ref, typ, segs, True, True)
         qm = searchgen.query_menu(ref, typ, segs)
